@@ -64,11 +64,16 @@ type Scenario struct {
 	Schedule Schedule     `json:"schedule"`
 	Cold     bool         `json:"cold"` // clients start with nothing but M's compile behind them... cold: M is compiled by client 0's first op
 	Procs    int          `json:"gomaxprocs"`
+	// AloneOnly: no concurrency at all; every client's program runs by itself,
+	// clients in REVERSE order, in this (fresh) process. A result that depends
+	// on what ran before it in the process differs from the concurrent run.
+	AloneOnly bool `json:"alone_only,omitempty"`
 }
 
 type Result struct {
 	Together       [][]string     `json:"together"` // per client, per op: result text
 	Alone          [][]string     `json:"alone"`
+	AloneFresh     [][]string     `json:"alone_fresh,omitempty"` // from a separate fresh process, clients in reverse order
 	Fingerprint    string         `json:"fingerprint"`
 	Switches       int            `json:"switches"`
 	Steps          int64          `json:"steps"`
@@ -265,6 +270,16 @@ func Run(sc *Scenario) (res Result) {
 			res.Err = err.Error()
 			return
 		}
+	}
+	if sc.AloneOnly {
+		res.Alone = make([][]string, k)
+		for i := k - 1; i >= 0; i-- {
+			for j := range sc.Clients[i].Ops {
+				res.Alone[i] = append(res.Alone[i], runOp(states[i], &sc.Clients[i].Ops[j]))
+			}
+		}
+		res.Fingerprint = "alone"
+		return
 	}
 	res.Together = make([][]string, k)
 	done := make([]bool, k)
